@@ -92,7 +92,7 @@ def vttRep (s : Subs) : Bool :=
     attrsOk it.attrs ["WebVTTAlign", "WebVTTLine", "WebVTTPosition", "WebVTTSize", "WebVTTVertical"] &&
     attrsOk (VTT.styleAttrs s it.style) ["WebVTTAlign", "WebVTTLine", "WebVTTPosition", "WebVTTSize", "WebVTTVertical"] &&
     (match it.region with | some r => plainValue r && s.regions.any (·.id = r) | none => true) &&
-    (it.comments.all fun c => trimSpace c = c && c ≠ [] && plainText c && !hasPrefix "NOTE ".toList c && c ≠ "NOTE".toList) &&
+    (it.comments.all fun c => trimSpace c = c && c ≠ [] && plainText c && !hasPrefix "NOTE ".toList c && !hasPrefix "NOTE\t".toList c && c ≠ "NOTE".toList) &&
     !it.lines.isEmpty && it.lines.all fun l =>
       (l.voice = trimSpace l.voice && !(l.voice.any fun c => c = '<' || c = '>' || c = '&' || c = '/' || c = '=' || c = '"' || c = '\'' || c = '\n' || c = '\r') &&
         !hasSuffix "--".toList l.voice) &&
@@ -121,20 +121,21 @@ def vttRep (s : Subs) : Bool :=
   (s.regions.all fun d => plainValue d.id &&
     -- the number of lines is an int in the library: canonical decimal, and 0 means unset
     (match SRT.kvGet d.attrs "WebVTTLines" with
-     | some v => (match atoi v with | some n => n ≠ 0 && itoa n == v | none => false)
+     | some v => (match atoi v with | some n => decide (0 < n) && itoa n == v | none => false)
      | none => true) &&
     attrsOk d.attrs ["WebVTTLines", "WebVTTRegionAnchor", "WebVTTScroll", "WebVTTViewportAnchor", "WebVTTWidth"] &&
     attrsOk (VTT.styleAttrs s d.ref) ["WebVTTLines", "WebVTTRegionAnchor", "WebVTTScroll", "WebVTTViewportAnchor", "WebVTTWidth"]) &&
   ((VTT.styleLines s).all fun l => trimSpace l = l && l ≠ [] && plainText l &&
     -- a CSS line that looks like the start of another block ends the STYLE block (the library's dialect)
-    !(l = "NOTE".toList || hasPrefix "NOTE ".toList l || hasPrefix "Region: ".toList l || hasPrefix "STYLE".toList l ||
+    !(l = "NOTE".toList || hasPrefix "NOTE ".toList l || hasPrefix "NOTE\t".toList l || hasPrefix "Region: ".toList l || hasPrefix "STYLE".toList l ||
       hasPrefix "X-TIMESTAMP-MAP".toList l)) &&
   ((VTT.styleLines s).getLast?.map (hasSuffix ['}'])) != some false &&
   (match SRT.kvGet s.metadata "WebVTTTimestampMap" with
    | some v => match splitC ',' v with
      | [l, m] => match atoi l, atoi m with
        -- LOCAL is carried to the millisecond; MPEGTS is a non-negative tick count
-       | some l, some m => decide (0 ≤ l) && decide (l < hour100) && l % 1000000 == 0 && decide (0 ≤ m)
+       | some l, some mv => decide (0 ≤ l) && decide (l < hour100) && l % 1000000 == 0 && decide (0 ≤ mv) && itoa mv == m &&
+                            decide (mv < 4611686018427387904)
        | _, _ => false
      | _ => false
    | none => true)
@@ -171,8 +172,23 @@ def vttOutside (text : Str) : Bool :=
   let rec longDigits : List Char → Nat → Bool
     | [], n => decide (19 ≤ n)
     | c :: rest, n => if c.isDigit then longDigits rest (n + 1) else decide (19 ≤ n) || longDigits rest 0
+  -- a piece of text between two tags that is nothing but `&nbsp;` on a line with an inline timestamp: blank
+  -- for the decoder (U+00A0 after decoding), text for the library (it tests the raw characters), so the pending
+  -- timestamp lands on different runs (`C02read2.findingNbsp…`)
+  -- the pieces of text outside `<…>`
+  let rec chunks : List Char → Bool → List Char → List (List Char) → List (List Char)
+    | [], _, cur, acc => (cur.reverse :: acc)
+    | '<' :: rest, false, cur, acc => chunks rest true [] (cur.reverse :: acc)
+    | '>' :: rest, true, _, acc => chunks rest false [] acc
+    | _ :: rest, true, cur, acc => chunks rest true cur acc
+    | c :: rest, false, cur, acc => chunks rest false (c :: cur) acc
+  let nbspOnly (c : List Char) : Bool :=
+    contains "&nbsp;".toList c && trimSpace (replaceAll "&nbsp;".toList [] c) = []
+  let hasTs (l : List Char) : Bool :=
+    (l.zip l.tail).any fun (a, b) => a = '<' && b.isDigit
   lines.any fun l =>
     let t := trimSpace l
+    (hasTs t && (chunks t false [] []).any nbspOnly) ||
     hasPrefix "NOTE\t".toList t ||
     (hasPrefix "Region: ".toList t && longDigits t 0) ||
     inTag t false
